@@ -254,11 +254,13 @@ class Check(PropertyCheck):
                 # one converter step, compared field for field (bytes of the re-encoded state) with the Lean converter
                 v = rng.choice(CONV_MODELLED)
                 c = {"kind": "conv", "v": v, "state": canon_in(st), "tweak": rng.choice(CONV_TWEAKS.get(v, [None]) + [None])}
+                if v <= 16 and rng.chance(0.6): c["mode"] = rng.choice(OLD_MODES)
                 if c["tweak"] == "sni-bytes":
                     c["sni_hex"] = bytes(rng.choice([0x61, 0x2e, 0x80, 0xff, 0xc3, 0xa9, 0x5c, 0x00]) for _ in range(rng.randint(0, 12))).hex()
                 yield c
             elif r < 0.9:
                 c = {"kind": "downgrade", "to": rng.randint(MIN_SYNTH, 20), "state": canon_in(st)}
+                if c["to"] <= 16 and rng.chance(0.6): c["mode"] = rng.choice(OLD_MODES)
                 if c["to"] <= 10 and rng.chance(0.5):
                     c["variant"] = "sni-bytes"
                     c["sni_hex"] = bytes(rng.choice([0x61, 0x2e, 0x80, 0xff, 0xc3, 0xa9, 0x5c, 0x00]) for _ in range(rng.randint(1, 12))).hex()
@@ -356,6 +358,8 @@ class Check(PropertyCheck):
                 if v not in INVERSES: raise Skip()
                 INVERSES[v](old)
             assert old["version"] == case["to"]
+            if case.get("mode") is not None and "mode" in old:
+                old["mode"] = case["mode"]      # what the old release recorded as its proxy mode; today's flows do not keep it
             variant = case.get("variant")
             if variant == "sni-bytes" and case["to"] <= 10:
                 # format <= 10 stored the SNI as raw bytes, which need not be ASCII
@@ -422,6 +426,7 @@ class Check(PropertyCheck):
             if u not in INVERSES: raise Skip()
             INVERSES[u](old)
         assert old["version"] == v
+        if case.get("mode") is not None and "mode" in old: old["mode"] = case["mode"]
         t = case.get("tweak")
         if t == "sni-bytes":
             old["client_conn"]["sni"] = bytes.fromhex(case["sni_hex"]); old["server_conn"]["sni"] = bytes.fromhex(case["sni_hex"])[::-1]
@@ -558,8 +563,8 @@ class Check(PropertyCheck):
         if case["kind"] == "dumpperm": return ("dumpperm", case["file"], tuple(obs["order"]) if obs and "order" in obs else case["perm_seed"])
         if case["kind"] == "dumpsplit": return ("dumpsplit", case["file"], case["cut"], case["between"])
         if case["kind"] == "future": return ("future", str(case["version"]))
-        if case["kind"] == "conv": return ("conv", case["v"], case.get("tweak"), digest(case["state"]))
-        return (case["kind"], case.get("to"), digest(case["state"]))
+        if case["kind"] == "conv": return ("conv", case["v"], case.get("tweak"), case.get("mode"), digest(case["state"]))
+        return (case["kind"], case.get("to"), case.get("mode"), case.get("variant"), digest(case["state"]))
 
     def branches(self, case, obs):
         if case["kind"] == "dumpmut": return ["dumpmut:" + case["edit"]]
@@ -586,6 +591,9 @@ class Check(PropertyCheck):
                 yield {"kind": "future", "version": [a, b]}
 
 
+# values old releases stored in the top-level "mode" of a flow (their `mode` option as typed)
+OLD_MODES = ["regular", "transparent", "upstream", "socks5", "reverse", "upstream:http://proxy.example:8080", "reverse:https://example.com",
+             "reverse:http://127.0.0.1:8000", "dummy", ""]
 CONV_MODELLED = [10, 11, 12, 13, 14, 15, 16, 17, 19, 20]
 CONV_TWEAKS = {10: ["sni-bytes", "sni-bytes", "sni-none", "empty-lists"], 12: ["marked-true", "marked-false"], 13: ["ts-null", "ts-null"],
                15: ["no-request"], 20: ["quic", "quic-server"]}
